@@ -61,6 +61,20 @@ def run(tier, seed):
         c = {'uid': 'x%d' % k, 'ds': rrgen.inst(ds), 'tz': False, 'rtext': rt + ' EX ' + xt, 'count': 0, 'until': [], 'ics': rrgen.event_ics('x%d' % k, ds, [rt], exrules=[xt]), 'maxpop': 70, 'mode': 'p',
              'exrule_covers': fr == xfr, 'freq': fr}
         cases.append(c)
+    # BYDAY lists of 15 to 40 different members, negative ordinals among them (the container of BYDAY changes its form with the number
+    # of members): every FREQ that reads BYDAY
+    for k in range(600 if tier == 'thorough' else 60):
+        fr = rnd.choice(['MONTHLY', 'MONTHLY', 'YEARLY', 'WEEKLY', 'DAILY'])
+        top = 53 if fr == 'YEARLY' and rnd.random() < 0.5 else 5
+        mem = set()
+        while len(mem) < rnd.randint(15, 40):
+            o = rnd.choice([0, 1, 2, 3, 4, 5, -1, -2, -1, rnd.randint(-top, top)]) if fr in ('MONTHLY', 'YEARLY') else 0
+            mem.add(('%d' % o if o else '') + rnd.choice(['MO', 'TU', 'WE', 'TH', 'FR', 'SA', 'SU']))
+            if fr not in ('MONTHLY', 'YEARLY') and len(mem) == 7: break
+        mem = sorted(mem); rnd.shuffle(mem)
+        rt = 'FREQ=%s;BYDAY=%s' % (fr, ','.join(mem)) + rnd.choice(['', ';COUNT=90', ';BYMONTH=3,10', ';INTERVAL=2'])
+        ds = (rnd.choice([2019, 2020, 2024]), rnd.randint(1, 12), rnd.randint(1, 28)) + rnd.choice([(), (8, 30, 0)])
+        cases.append({'uid': 'w%d' % k, 'ds': rrgen.inst(ds), 'tz': False, 'rtext': rt, 'count': 0, 'until': [], 'ics': rrgen.event_ics('w%d' % k, ds, [rt]), 'maxpop': 130, 'mode': rnd.choice('np')})
     calls = []
     for k in range(n):
         y = rnd.choice([1900, 1901, 1902, 1970, 2000, 2037, 2038, 2077, 2097, 2098, 2099] + rrgen.year_types()); m = rnd.randint(1, 12); d = rnd.choice([1, 28, 29, 30, 31]); d = min(d, rrgen.dim(y, m))
